@@ -1,4 +1,4 @@
-HOOK_COMMITS = []
+HOOK_COMMITS = ["3b74526"]
 PENDING_REASON = {}
 META = {
     "C12": dict(
@@ -30,5 +30,15 @@ META = {
         text="Lean 4 proofs that the chain predicate is preserved by append of an extending file, snapshot replacement and prefix removal (retention keeps the newest), and that the engine model's WriteLTXFileAt/Drop only ever add an exact extension or a replacing snapshot; the real log directory is decoded, chain-checked (Lean spec) and integrity-checked (ltx.Decoder.Verify) after every step, with stray temporary files and retention sweeps.",
         note="Trusted: Lean kernel; engine model tied by correspondence; ltx.Decoder.Verify; harness-set mtimes.",
         technique="Lean 4 theorems on the chain spec and engine model + differential check with log-directory oracle",
+    ),
+    "C07": dict(
+        text="Lean 4 proofs on the engine model that without write authority every mutating operation (database, journal and WAL writes, journal finalisation, drop, import) returns the read-only error with the state unchanged, that the ungated operations cannot move the position or the log, and that a WAL commit step starting after authority was lost publishes nothing; plus a regenerated fact table proving the refusal is present in each Go entry point. A real non-primary Store is driven through the real stream path and attacked with every operation kind at every pager-protocol state.",
+        note="Trusted: Lean kernel; engine model tied by correspondence; fact extractor; verif hook exposing processLTXStreamFrame. Mid-call demotion windows (between a gate check and the rename) are stated, not exhibited.",
+        technique="Lean 4 frame/refusal theorems over the engine model + regenerated gate table + differential attack suite on a real replica",
+    ),
+    "C15": dict(
+        text="Lean 4 proofs that Drop advances the position by exactly one with the empty checksum and removes database/journal/WAL, that its tombstone extends the chain, that a re-created database continues the TXID sequence with the empty pre-checksum, and that applying a tombstone to any image yields the empty image; histories with drop/re-creation on a real primary and tombstones streamed to a real replica are compared with the model and checked against the spec.",
+        note="Trusted: Lean kernel; engine model tied by correspondence; directory listing through FUSE not exercised (no mount).",
+        technique="Lean 4 theorems over the engine model + differential histories with drop/recreate on primary and replica",
     ),
 }
